@@ -186,6 +186,8 @@ pub struct Scenario {
     pub stream: Option<StreamSpec>,
     /// free-form description of the swarm configuration that produced it
     pub config: String,
+    /// faults that leave no delivered operation behind (drops); counted, never replayed
+    pub hidden_faults: Vec<Fault>,
 }
 
 #[derive(Clone, Debug, PartialEq, Eq)]
@@ -412,6 +414,7 @@ impl Scenario {
                 .and_then(|v| v.as_str())
                 .unwrap_or("")
                 .to_string(),
+            hidden_faults: vec![],
         })
     }
 }
